@@ -218,10 +218,10 @@ example : ((abstractionSymbols.filter covered).map (·.2.2)).eraseDups = [256, 2
 /-- text level = command level on every declared symbol: running the `re.sub`s of `refine` on the declaration line
     z3 prints gives the printed form of the refined command (a definition for the covered ones, the same line for exp) -/
 theorem refine_text_commutes : ∀ sym ∈ abstractionSymbols,
-    refineText (printCmd (.declareFun sym.1 sym.2.1 sym.2.2)).toList
-      = (printCmd (refineCmd (.declareFun sym.1 sym.2.1 sym.2.2))).toList := by decide +kernel
+    refineText (printCmd (.declareFun sym.1 sym.2.1 sym.2.2))
+      = printCmd (refineCmd (.declareFun sym.1 sym.2.1 sym.2.2)) := by decide +kernel
 
-example : printCmd (refineCmd (.declareFun "f_evm_bvsrem_256" [256, 256] 256)) =
+example : String.ofList (printCmd (refineCmd (.declareFun "f_evm_bvsrem_256" [256, 256] 256))) =
     "(define-fun f_evm_bvsrem_256 ((x (_ BitVec 256)) (y (_ BitVec 256))) (_ BitVec 256) (ite (= y (_ bv0 256)) (_ bv0 256) (bvsrem x y)))" := by
   decide +kernel
 
